@@ -236,6 +236,18 @@ func (d *dialer) peer(c net.Conn, cid int) {
 			send(fmt.Sprintf("HTTP/1.1 200 OK\r\nConnection: %s\r\nContent-Length: %d\r\n\r\n%s", spelling, len(body), body))
 			d.log.add("peer-close", cid, id, plan)
 			return
+		case "chunkcut": // a chunked response whose peer closes before the CRLF that ends the message
+			send(fmt.Sprintf("HTTP/1.1 200 OK\r\nTransfer-Encoding: chunked\r\n\r\n%x\r\n%s\r\n0\r\n", len(body), body))
+			d.log.add("peer-close", cid, id, plan)
+			return
+		case "chunkcuttrailer": // ... or in the middle of the trailer section
+			send(fmt.Sprintf("HTTP/1.1 200 OK\r\nTransfer-Encoding: chunked\r\nTrailer: X-Sum\r\n\r\n%x\r\n%s\r\n0\r\nX-Sum: 1", len(body), body))
+			d.log.add("peer-close", cid, id, plan)
+			return
+		case "nolengthkeepalive": // no length, "Connection: keep-alive": the body ends where the connection ends
+			send(fmt.Sprintf("HTTP/1.1 200 OK\r\nConnection: keep-alive\r\n\r\n%s", body))
+			d.log.add("peer-close", cid, id, plan)
+			return
 		case "okclose":
 			send(fmt.Sprintf("HTTP/1.1 200 OK\r\nConnection: close\r\nContent-Length: %d\r\n\r\n%s", len(body), body))
 			d.log.add("peer-close", cid, id, plan)
@@ -296,7 +308,7 @@ func installYield() {
 
 // ---- one run ----------------------------------------------------------------------
 
-var plans = []string{"ok", "ok", "ok", "ok", "bigok", "bigstall", "bigmidbody", "okclosespelled", "okchunked", "okclose", "closebefore", "midheader", "midbody", "stall", "okthenclose"}
+var plans = []string{"ok", "ok", "ok", "ok", "bigok", "bigstall", "bigmidbody", "okclosespelled", "chunkcut", "chunkcuttrailer", "nolengthkeepalive", "okchunked", "okclose", "closebefore", "midheader", "midbody", "stall", "okthenclose"}
 
 type doRec struct {
 	reqTimeout       time.Duration
@@ -553,7 +565,9 @@ func oneRun(w *mon.W, c *mon.Case) {
 					fail("matching", "Do(%s, plan %s) succeeded with the response body %q, which answers another request", rec.id, rec.plan, rec.body)
 					return
 				}
-				if rec.plan != "ok" && rec.plan != "bigok" && rec.plan != "okchunked" && rec.plan != "okclose" && rec.plan != "okclosespelled" && rec.plan != "okthenclose" {
+				if rec.plan != "ok" && rec.plan != "bigok" && rec.plan != "okchunked" && rec.plan != "okclose" && rec.plan != "okclosespelled" && rec.plan != "okthenclose" && rec.plan != "chunkcut" && rec.plan != "chunkcuttrailer" && rec.plan != "nolengthkeepalive" {
+					// (a chunked response cut in its last line or trailer, and a body that
+					// ends with the connection, may be handed out: their bytes are all there)
 					fail("matching", "Do(%s) succeeded although the peer's plan was %s", rec.id, rec.plan)
 					return
 				}
